@@ -15,21 +15,22 @@ import (
 
 	"github.com/trustbloc/sidetree-go/pkg/api/operation"
 	"github.com/trustbloc/sidetree-go/pkg/api/protocol"
+	"github.com/trustbloc/sidetree-go/pkg/canonicalizer"
+	"github.com/trustbloc/sidetree-go/pkg/commitment"
 	"github.com/trustbloc/sidetree-go/pkg/document"
+	"github.com/trustbloc/sidetree-go/pkg/encoder"
 	"github.com/trustbloc/sidetree-go/pkg/patch"
+	"github.com/trustbloc/sidetree-go/pkg/util/pubkey"
 	"github.com/trustbloc/sidetree-go/pkg/vdr/sidetreelongform/dochandler"
 	"github.com/trustbloc/sidetree-go/pkg/vdr/sidetreelongform/dochandler/protocol/nsprovider"
 	"github.com/trustbloc/sidetree-go/pkg/vdr/sidetreelongform/dochandler/protocolversion/clientregistry"
 	vcommon "github.com/trustbloc/sidetree-go/pkg/vdr/sidetreelongform/dochandler/protocolversion/versions/common"
+	pcfg "github.com/trustbloc/sidetree-go/pkg/vdr/sidetreelongform/dochandler/protocolversion/versions/v1_0/config"
 	"github.com/trustbloc/sidetree-go/pkg/versions/1_0/client"
 	"github.com/trustbloc/sidetree-go/pkg/versions/1_0/doccomposer"
 	"github.com/trustbloc/sidetree-go/pkg/versions/1_0/doctransformer/didtransformer"
 	"github.com/trustbloc/sidetree-go/pkg/versions/1_0/operationapplier"
 	"github.com/trustbloc/sidetree-go/pkg/versions/1_0/operationparser"
-	pcfg "github.com/trustbloc/sidetree-go/pkg/vdr/sidetreelongform/dochandler/protocolversion/versions/v1_0/config"
-	"github.com/trustbloc/sidetree-go/pkg/commitment"
-	"github.com/trustbloc/sidetree-go/pkg/encoder"
-	"github.com/trustbloc/sidetree-go/pkg/util/pubkey"
 )
 
 type result struct {
@@ -136,11 +137,23 @@ func main() {
 		}},
 		{"process", func(i int) string { return snap(handler.ProcessOperation(reqs[i])) }},
 	}
+	// calls that fail (error paths release pooled or cached resources too): made before the
+	// concurrent phase and interleaved with it
+	failing := func(i int) {
+		canonicalizer.MarshalCanonical(map[string]interface{}{"c": make(chan int)})
+		client.NewCreateRequest(&client.CreateRequestInfo{OpaqueDocument: `{"a":1}`, AnchorOrigin: make(chan int), MultihashCode: 18,
+			RecoveryCommitment: "x", UpdateCommitment: "y"})
+		parser.Parse("did:ion", []byte(fmt.Sprintf(`{"type":"create","suffixData":%d}`, i)))
+		applier.Apply(&operation.AnchoredOperation{Type: "update", OperationRequest: []byte("{}")}, &protocol.ResolutionModel{})
+		handler.ResolveDocument(fmt.Sprintf("did:ion:EiBad%d:e30", i))
+		handler.ProcessOperation([]byte("[]"))
+	}
 	for _, sc := range scenarios {
 		expected := make([]string, n)
 		for i := 0; i < n; i++ {
 			expected[i] = sc.f(i)
 		}
+		failing(0)
 		got := make([]string, n)
 		var wg sync.WaitGroup
 		for w := 0; w < *workers; w++ {
@@ -149,6 +162,9 @@ func main() {
 				defer wg.Done()
 				for c := 0; c < *calls; c++ {
 					i := w**calls + c
+					if i%5 == 2 {
+						failing(i)
+					}
 					got[i] = sc.f(i)
 				}
 			}(w)
